@@ -7,7 +7,7 @@
    Props/C07.v); it is checked on the implementation by the c12 stream's independent substitution. *)
 From Coq Require Import List NArith ZArith Bool Arith.
 From AG Require Import Base.Val Base.Sort Str.MetaVar Tree.Tree Match.MatchNode Rule.Rule Rule.Kinds
-  Rule.Eval Rewrite.Indent Rewrite.IndentProofs Rewrite.Template Rewrite.TemplateProofs Front.Load Front.LoadSpec Front.LoadProofs Front.Apply Front.ApplyProofs.
+  Rule.Eval Rewrite.Indent Rewrite.IndentProofs Rewrite.Template Rewrite.TemplateProofs Front.Load Front.LoadSpec Front.LoadProofs Front.PkgProofs Front.Apply Front.ApplyProofs.
 Import ListNotations.
 
 (* 1. the topological sort: total, sound, complete — for every dependency map *)
@@ -116,6 +116,15 @@ Print Assumptions C12_apply_equations.
 (* 8. references to global utility rules: a reference answers with the LOCAL utility of that name when there is
       one — so a local utility without a known kind set is not rescued by a global rule of the same name — and
       without global rules the kinds are those of Rule/Kinds.v *)
+Theorem C12_kinds_without_globals : forall fuel utils r, pkg fuel utils [] r = pk fuel utils r.
+Proof. exact PkgProofs.pkg_nil. Qed.
+Print Assumptions C12_kinds_without_globals.
+
+Theorem C12_reference_is_local_first : forall f utils gk id ur,
+  lookup id utils = Some ur -> pkg (S f) utils gk (RMatches id) = pkg f utils gk ur.
+Proof. exact PkgProofs.pkg_local_first. Qed.
+Print Assumptions C12_reference_is_local_first.
+
 Example C12_local_shadows_global :
   let g := [103; 48]%N in
   let k := {| k_rule := RMatches g; k_utils := [(g, RRegex [])]; k_cons := []; k_trans := None; k_fix := None |} in
